@@ -10,16 +10,16 @@ The model FOLLOWS THE CODE, including what the property does not want:
   * `generate_request_object` recurses on message-typed request fields with no visited set; the model
     recurses on explicit fuel and returns `Err.recursion` when it runs out (Python: RecursionError);
   * a REQUIRED message-typed field contributes only the entries of its own request fields — none if it
-    has none; a REQUIRED proto3-optional field is dropped (it has a synthetic oneof and `oneof_fields()`
-    skips synthetic oneofs);
+    has none (a REQUIRED proto3-optional field IS kept since fix 1704548: `not field.oneof or field.proto3_optional`);
   * `_parse_snippet_segments` leaves `REQUEST_EXECUTION.end` unset when no `# Handle the response`
     line exists (void methods), and `RESPONSE_HANDLING.end` is always the number of lines;
-  * the sample CALLS `client.<snake(rpc)>` (`render_method_name`), while the metadata and the client use
-    `snake(client_method_name)` — they differ when the RPC name is a Python keyword (§6 below).
+  * since fix cb7ea26 the sample calls `client.<snake(client_method_name)>` for non-internal methods — the name
+    the metadata and the client use (§6 below); internal methods are still called as `_<snake(rpc)>`.
 Also modelled: sample ids / file names / function names (`_generate_samples_and_manifest`, sample.py.j2),
-the `parameters` list of `_fill_sample_metadata` (§6, §7).  `to_snake_case` and `fix_whitespace` are NOT
-hand-copied: the driver and the theorems instantiate the `snake` parameter with the machine-translated
-`Pinned.Funcs.to_snake_case`, and the harness runs `Pinned.Funcs.fix_whitespace` on the raw renders.
+the `parameters` list of `_fill_sample_metadata` (§6, §7).  `to_snake_case`, `Method.client_method_name` and
+`fix_whitespace` are NOT hand-copied: the driver and the theorems instantiate the `snake` / `cmn` parameters with
+the machine-translated `Pinned.Funcs.to_snake_case` / `Pinned.Funcs.client_method_name`, and the harness runs
+`Pinned.Funcs.fix_whitespace` on the raw renders.
 
 NOT modelled (reached through T3 / the oracle only):
   * Jinja rendering of sample.py.j2 / feature_fragments.j2 (request set-up text, calling-form text, imports,
@@ -314,9 +314,9 @@ def selectedOneofs : List (List Char) → List Field → List Field
       else f :: selectedOneofs (o :: seen) fs
     | none => selectedOneofs seen fs
 
-/-- `[field for field in message.required_fields if not field.oneof]` -/
+/-- `[field for field in message.required_fields if not field.oneof or field.proto3_optional]` -/
 def requiredNonOneof (fs : List Field) : List Field :=
-  fs.filter fun f => f.required && f.oneof.isNone
+  fs.filter fun f => f.required && (f.oneof.isNone || f.proto3Optional)
 
 /-- `request_fields = selected_oneofs + required_fields` -/
 def requestFields (m : Msg) : List Field :=
@@ -426,21 +426,17 @@ def sampleFile (snake : List Char → List Char) (id : List Char) : List Char :=
 /-- `def sample_{{ sample.rpc|snake_case|trim }}` (names have no surrounding blanks: `trim` is the identity) -/
 def sampleFunction (snake : List Char → List Char) (rpc : List Char) : List Char := "sample_".toList ++ snake rpc
 
-def lowerAscii (s : List Char) : List Char :=
-  s.map fun c => if 'A' ≤ c ∧ c ≤ 'Z' then Char.ofNat (c.toNat + 32) else c
+/-- `snippet_metadata.client_method.short_name` — also the name of the method the client class has;
+    `cmn name is_internal` = `Method.client_method_name` (a parameter: the translated source function) -/
+def metadataMethod (snake : List Char → List Char) (cmn : List Char → Bool → List Char)
+    (rpc : List Char) (internal : Bool) : List Char :=
+  snake (cmn rpc internal)
 
-/-- `Method.client_method_name`: `name + "_"` if `name.lower()` is a keyword; `make_private` if internal -/
-def clientMethodName (kw : List (List Char)) (rpc : List Char) (internal : Bool) : List Char :=
-  let n := if kw.contains (lowerAscii rpc) then rpc ++ us else rpc
-  if internal then (if us.isPrefixOf n then n else us ++ n) else n
-
-/-- `snippet_metadata.client_method.short_name` — also the name of the method the client class has -/
-def metadataMethod (snake : List Char → List Char) (kw : List (List Char)) (rpc : List Char) (internal : Bool) : List Char :=
-  snake (clientMethodName kw rpc internal)
-
-/-- `render_method_name`: what the sample calls on the client -/
-def calledMethod (snake : List Char → List Char) (rpc : List Char) (internal : Bool) : List Char :=
-  (if internal then us else []) ++ snake rpc
+/-- `render_method_name`: what the sample calls on the client.  `sample["client_method_name"]` is
+    `rpc.client_method_name`; the template uses it only in the non-internal branch. -/
+def calledMethod (snake : List Char → List Char) (cmn : List Char → Bool → List Char)
+    (rpc : List Char) (internal : Bool) : List Char :=
+  if internal then us ++ snake rpc else snake (cmn rpc internal)
 
 /-! ### 7. `parameters` of the metadata entry (`_fill_sample_metadata`) -/
 
